@@ -37,11 +37,27 @@ ASSUMPTIONS = [
     "the linearised equations from the generated model source independently",
 ]
 MANIFEST = {
-    "technique": "Coq/MathComp proof of the first-order solution algebra over an abstract matrix interface (one model text, "
-                 "instantiated on 'M[F]_(m,n) for the theorems and on list(list bigQ) for an exact-rational correspondence "
-                 "with the solver through the public API); QZ/Schur/lstsq as contracts; classification thresholds regenerated",
-    "level_text": "see props/C01.v",
-    "level_note": "partial: QZ ordering, Schur, lstsq are contracts; boundedness of T^t outside",
+    "technique": "Coq 8.16 / MathComp proof of the first-order solution algebra written once over an abstract matrix interface "
+                 "(instantiated on 'M[F]_(m,n) over an arbitrary field for the theorems and on exact rational / dyadic list "
+                 "matrices for a correspondence with the real solver through the public API); QZ, Schur, lstsq as contracts; "
+                 "classification predicates and token rules regenerated from the source",
+    "level_text": "Theorems (props/C01.v, all closed under the global context, arbitrary field and block sizes): the triangular "
+                  "solution annihilates both blocks of the QZ-transformed system; EVERY period of simulate_flat, from every initial "
+                  "condition and every path of unanticipated and anticipated shocks, satisfies A xi+[t] + B xi+[t-1|t] + C + D e[t] = 0 "
+                  "with the state rows of xi+ equal to the simulated path; the anticipated-shock impact equals P v[t] - X a[t] with the "
+                  "forward expansion proved by induction over the horizon; the leads of xi+ are the states of the model-consistent "
+                  "continuation (via the dynamic identities, which are proved to exist for every token set and to be x{k}(t) = x{k+1}(t-1)); "
+                  "a steady state of the system is a fixed point of the recursion and level = steady + deviation period by period; the "
+                  "deviation path satisfies the homogeneous system; measurement block; STABLE iff #unstable = #forward-looking, the three "
+                  "eigenvalue classes partition, and the QZ ordering predicate agrees with the classifier (predicates regenerated from "
+                  "fords/solutions.py); the recursion matrix has exactly the generalised eigenvalues of the pencil block ordered first. "
+                  "Correspondence: random models as source text -> from_string/assign/steady/solve/simulate, all 15 solution matrices, "
+                  "expansions, token vectors, dynamic identities, classification and every simulated cell against the exact model.",
+    "level_note": "partial. Contracts (premises, re-checked numerically on every recorded oracle output): ordered QZ (Q A Z = S, Q B Z = T, "
+                  "Q non-singular, S/T block upper triangular, S11, T22, S22+T22, Z21 non-singular), Schur (u orthogonal, Tg = u Ta u'), "
+                  "lstsq = inverse. NOT proved: boundedness of the powers of a matrix with spectral radius < 1 (non-explosiveness is stated "
+                  "as similarity to the stable pencil block, theorem C01_recursion_spectrum_partial); floating-point rounding (tie by tolerance "
+                  "1e-7*(1+|x|)); the derivation of A..J by aldi (C02). Trusted: Coq kernel + vm_compute, Bignums, translator/ford.py, harness.",
 }
 
 SHOCK_BIG = 2 ** 1000      # stands for an infinite eigenvalue modulus (alpha = 0)
@@ -447,16 +463,11 @@ def dy(x: float) -> str:
     return f"(LQ.dy ({mi}) ({ex}))"
 
 
+
+
 def dd(x: float) -> str:
     """the same value as an LD.dy literal (dyadic arithmetic, stage (b))"""
     return "(LD.dy" + dy(x)[6:]
-
-
-def dmat(a) -> str:
-    a = np.asarray(a, dtype=float)
-    if a.ndim == 1:
-        a = a.reshape(-1, 1)
-    return "[" + "; ".join("[" + "; ".join(dd(v) for v in row) + "]" for row in a) + "]"
 
 
 def fparts(a):
@@ -485,15 +496,6 @@ def _zl(rows) -> str:
     return "[" + "; ".join("[" + "; ".join(f"({v})%Z" for v in r) + "]" for r in rows) + "]"
 
 
-def fmat(a) -> str:
-    """an LF.of_dyadic literal: the exact values of a matrix of doubles over one power-of-two denominator"""
-    rows, k = fparts(a)
-    return f"(LF.of_dyadic {_zl(rows)} {k}%Z)"
-
-
-def fexp(a) -> str:
-    rows, k = fparts(a)
-    return f"({_zl(rows)}, {k}%Z)"
 
 
 def raw(a) -> str:
@@ -503,12 +505,6 @@ def raw(a) -> str:
     rows, k = fparts(a)
     return f"({_zl(rows)}, {k}%Z)"
 
-
-def cmat(a) -> str:
-    a = np.asarray(a, dtype=float)
-    if a.ndim == 1:
-        a = a.reshape(-1, 1)
-    return "[" + "; ".join("[" + "; ".join(dy(v) for v in row) + "]" for row in a) + "]"
 
 
 def cq(x: float) -> str:
@@ -839,6 +835,8 @@ def gen_determinate(rng, max_states):
 
 
 def correspondence(ctx) -> CorrResult:
+    import time as _time
+    t_start = _time.time()
     rng = ctx.rng
     res = CorrResult()
     n_models = ctx.scale(80, 3000)
@@ -908,8 +906,7 @@ def correspondence(ctx) -> CorrResult:
         if len(samples) < 3:
             samples.append({"source": render_source(spec)[0], "system_vector": [(t.qid, t.shift) for t in
                             b.d.system_vectors.transition_variables], "eigenvalues": [str(e) for e in b.sol.eigenvalues]})
-    import time as _time
-    t_impl = _time.time() - ctx.t0
+    t_impl = _time.time() - t_start
     shards = [bundles[i:i + per_shard] for i in range(0, len(bundles), per_shard)]
     texts = [case_text(bs) for bs in shards]
     t1 = _time.time()
